@@ -21,6 +21,7 @@ M63, M64 = 1 << 63, 1 << 64
 RANGE = {"int": (-M63, M63 - 1), "nat": (0, M64 - 1)}
 SCALAR_POS = ["return", "assign", "arg", "comptime", "comptime_expr", "comptime_neg", "synth"]
 STRUCT_POS = ["tuple", "comptime_tuple", "comptime_array", "comptime_nested"]
+OPERAND_POS = ["binop", "compare", "augassign", "generic"]   # constant synthesised before it meets a parameter type
 
 
 def generate(ctx):
@@ -32,6 +33,8 @@ def generate(ctx):
 # specification side (Python integers; independent of the code and of the Coq model)
 def spec_program(case):
     tys, vals = case["tys"], case["vals"]
+    if case["pos"] in OPERAND_POS:
+        return spec_operand(case)
     if case["pos"] == "comptime_array":
         leaf_tys = [tys[0]] * len(vals)
     elif case["pos"] == "comptime_nested":
@@ -52,7 +55,22 @@ def spec_program(case):
     return ["err", None]
 
 
+def spec_operand(case):
+    """Operand / augmented assignment / generic argument: the constant has no hint, so it is an int:
+    outside [-2^63, 2^63-1] it is rejected with a signed IntOverflowError whatever the other operand is;
+    inside, the expression may still be ill-typed (any Guppy type error), but if check() accepts it then
+    compilation succeeds and the HUGR holds the signed constant IntVal with exactly that value."""
+    v = case["vals"][0]
+    if RANGE["int"][0] <= v <= RANGE["int"][1]:
+        return ["operand-ok", [6, v % M64]]
+    return ["err", "IntOverflowError", {"signed": True, "bits": 64, "is_underflow": v < 0}]
+
+
 def same_verdict(spec, impl):
+    if spec[0] == "operand-ok":
+        if impl[0] == "err":
+            return impl[1] != "IntOverflowError"
+        return impl[0] == "ok" and spec[1] in impl[1] and ["IntVal"] + spec[1] in impl[3]
     if spec[0] == "ok":
         return impl[0] == "ok" and impl[1] == spec[1] and (not impl[2] or all(p in spec[1] for p in impl[2]))
     if impl[0] != "err":
@@ -110,9 +128,40 @@ def program_cases(r, vs, n_struct, nb):
         else:
             vals = [r.choice(vs) for _ in range(n)]
         cases.append({"pos": pos, "tys": tys, "vals": vals})
+    cases += operand_cases(r, vs, n_struct)
     for k, c in enumerate(cases):
         c["id"] = k
     return cases
+
+
+def operand_cases(r, vs, n_random):
+    key = [-1, 1, 0, -3, -M63, M63 - 1, M63, M64 - 1, -M63 - 1]
+    out = []
+    # the negative / boundary constants against every operand type, both operand orders, literal and comptime
+    for v in key:
+        for t in ("nat", "int", "float"):
+            for ct in (False, True):
+                out.append({"pos": "binop", "tys": [t], "vals": [v], "op": "+", "side": "r", "ct": ct})
+            out.append({"pos": "binop", "tys": [t], "vals": [v], "op": "*", "side": "l", "ct": False})
+            out.append({"pos": "compare", "tys": [t], "vals": [v], "op": ">", "side": "r", "ct": False})
+        out.append({"pos": "binop", "tys": ["nat"], "vals": [v], "op": "-", "side": "r", "ct": False})
+        out.append({"pos": "binop", "tys": ["nat"], "vals": [v], "op": "^", "side": "r", "ct": True})
+        out.append({"pos": "compare", "tys": ["nat"], "vals": [v], "op": "==", "side": "l", "ct": True})
+        out.append({"pos": "augassign", "tys": ["nat"], "vals": [v], "op": "+", "ct": False})
+        out.append({"pos": "augassign", "tys": ["int"], "vals": [v], "op": "-", "ct": True})
+        out.append({"pos": "generic", "tys": ["int"], "vals": [v], "ct": False})
+        out.append({"pos": "generic", "tys": ["int"], "vals": [v], "ct": True})
+    for _ in range(n_random):
+        pos = r.choice(OPERAND_POS)
+        c = {"pos": pos, "tys": [r.choice(["nat", "nat", "int", "float"])], "vals": [r.choice(vs)], "ct": r.random() < 0.4}
+        if pos in ("binop", "augassign"):
+            c["op"] = r.choice(["+", "-", "*", "&", "|", "^", "//", "%"] if c["tys"][0] != "float" else ["+", "-", "*"])
+        if pos == "compare":
+            c["op"] = r.choice(["<", "<=", ">", ">=", "==", "!="])
+        if pos in ("binop", "compare"):
+            c["side"] = r.choice("lr")
+        out.append(c)
+    return out
 
 
 def coq_lexpr(v):
@@ -193,6 +242,8 @@ def canon_direct(c, r):
 def model_program_item(c):
     K = {"nat": "KNat", "int": "KInt"}
     pos, t, v = c["pos"], c["tys"][0], c["vals"][0]
+    if pos in OPERAND_POS:
+        return f"enc_p (compile_operand_payload ({v}))"
     if pos in ("return", "assign", "arg"):
         return f"enc_p (compile_expr {K[t]} {coq_lexpr(v)})"
     if pos == "synth":
@@ -248,9 +299,11 @@ def run(ctx):
         s = spec_program(c)
         if not same_verdict(s, i):
             spec_fail.append((c, s, i))
-    spec_fail.sort(key=lambda t: (len(t[0]["vals"]), abs(t[0]["vals"][0])))
+    # an accepted check() followed by a non-Guppy crash is the most telling input: list it first
+    spec_fail.sort(key=lambda t: (0 if t[2][0] == "crash" else 1, len(t[0]["vals"]), abs(t[0]["vals"][0])))
     for c, s, i in spec_fail[:5]:
-        ctx.report(f"lit:{c['pos']}:{','.join(c['tys'])}:{','.join(map(str, c['vals']))}", "counterexample",
+        extra = "".join(f":{k}={c[k]}" for k in ("op", "side", "ct") if k in c)
+        ctx.report(f"lit:{c['pos']}:{','.join(c['tys'])}:{','.join(map(str, c['vals']))}{extra}", "counterexample",
                    "literal at type: implementation differs from the range/value specification",
                    {"case": c, "specification": s, "implementation": i, "replay": replay_text(c),
                     "proofs": "ok" if info["ok"] else f"broken at {info['failed']}"})
@@ -259,7 +312,7 @@ def run(ctx):
     model_ok = tr_err is None and (vlib.COQ / "C17" / "ModelLit.vo").exists()
     if model_ok:
         try:
-            scal = [c for c in cases if c["pos"] in SCALAR_POS]
+            scal = [c for c in cases if c["pos"] in SCALAR_POS or c["pos"] in OPERAND_POS]
             mres = model_eval(ctx, ditems + [model_program_item(c) for c in scal])
             dm, pm = mres[:len(ditems)], mres[len(ditems):]
             for c, i, m in zip(dcases, dimpl, dm):
@@ -273,7 +326,16 @@ def run(ctx):
                                    {"case": c, "impl": i, "impl_canonical": ci, "model": m}, found_input=not spec_fail or True)
             by_id = {c["id"]: r_ for c, r_ in zip(cases, impl)}
             for c, m in zip(scal, pm):
-                ci = canon_program(by_id[c["id"]])
+                i = by_id[c["id"]]
+                if c["pos"] in OPERAND_POS:
+                    if i[0] == "err" and i[1] != "IntOverflowError":
+                        continue        # operator / overload resolution failed: outside this model
+                    if i[0] == "ok":    # typed once: the constant must be the signed IntVal the model predicts
+                        ci = m if m[0] == 1 and ["IntVal"] + m[1:] in i[3] else [9, "constants in HUGR", i[3]]
+                    else:
+                        ci = canon_program(i)
+                else:
+                    ci = canon_program(i)
                 if ci != m:
                     model_dis += 1
                     if model_dis <= 3:
@@ -302,11 +364,15 @@ def run(ctx):
         rule="evaluations = programs compiled by /repo + direct calls of the translated functions; non-trivial = programs accepted by check() whose ConstInt payloads were extracted from the serialised HUGR and compared",
         programs=len(cases), programs_accepted=accepted, programs_rejected=len(cases) - accepted,
         direct_calls=len(dcases), positions=posh, value_distribution=hist,
-        model_vs_impl_compared=(len(dcases) + sum(1 for c in cases if c["pos"] in SCALAR_POS)) if model_ok else 0,
+        model_vs_impl_compared=(len(dcases) + sum(1 for c in cases if c["pos"] in SCALAR_POS or c["pos"] in OPERAND_POS)) if model_ok else 0,
+        operand_positions={"cases": sum(1 for c in cases if c["pos"] in OPERAND_POS),
+                           "accepted_with_IntVal_constant": sum(1 for c, i in zip(cases, impl) if c["pos"] in OPERAND_POS and i[0] == "ok"),
+                           "negative_constant_vs_nat_accepted": sum(1 for c, i in zip(cases, impl) if c["pos"] in OPERAND_POS and i[0] == "ok" and c["vals"][0] < 0 and c["tys"][0] == "nat")},
         model_disagreements=model_dis, spec_disagreements=len(spec_fail),
         samples=[{"case": cases[j], "impl": impl[j], "spec": spec_program(cases[j])} for j in (0, len(cases) // 3, len(cases) - 1)],
         timing=T, notes=ctx.notes)
     return ctx.finish(LEVEL, cov, [
         "bool literals are outside the model (the translator checks that `case bool()` precedes the int cases)",
+        "constants synthesised before they meet a parameter type (operand of a binary operator/comparison in both orders against nat/int/float, augmented assignment, generic argument; literal, negated literal and comptime) are typed int once: checked on programs for verdict of check(), success of compile_function() and the IntVal constant in the HUGR",
         "literal positions exercised on programs: return, annotated assignment, call argument, unannotated assignment, comptime value / arithmetic / negation, tuple display, comptime tuple, comptime list, nested comptime tuple+list",
         "no emulator for /repo HUGR: 'observes exactly that value' is decided on the constant written into the HUGR"])
